@@ -54,7 +54,9 @@ func Bridge(r *Registry, v *Val) (reflect.Value, error) {
 }
 
 func bridgeSet(r *Registry, f reflect.Value, t Type, x any) error {
-	bad := func() error { return fmt.Errorf("%w: Go field of type %v for TL type %s", ErrSkip, f.Type(), t.Kind+t.Name) }
+	bad := func() error {
+		return fmt.Errorf("%w: Go field of type %v for TL type %s", ErrSkip, f.Type(), t.Kind+t.Name)
+	}
 	switch t.Kind {
 	case "int":
 		if f.Kind() != reflect.Int32 {
